@@ -69,7 +69,7 @@ func (e *eraCtx) syncBlock(h uint32) *Trace {
 		return t
 	}
 	sc := &Scenario{Name: fmt.Sprintf("SyncBlock height=%d", h),
-		Params: map[string]AVal{"height": hconst(h)},
+		Params: map[string]AVal{"type:uint32": hconst(h)},
 		Paths:  map[string]AVal{"pegnet.BlockSync.Synced": hconst(h - 1), "factom.EBlock.Height": hconst(h), "factom.DBlock.Height": hconst(h)},
 		// SelectPendingRates returns a freshly made (non-nil) map on its nil-error path
 		MaxDepth: 2,
@@ -88,7 +88,7 @@ func (e *eraCtx) syncBlockNoFault(h uint32) *Trace {
 		return t
 	}
 	sc := &Scenario{Name: fmt.Sprintf("SyncBlock height=%d no-fault", h),
-		Params:       map[string]AVal{"height": hconst(h)},
+		Params:       map[string]AVal{"type:uint32": hconst(h)},
 		Paths:        map[string]AVal{"pegnet.BlockSync.Synced": hconst(h - 1)},
 		Calls:        map[string]AVal{"isDone": cBool(false)},
 		MaxDepth:     0,
